@@ -140,6 +140,7 @@ def s2c_banner_job(job):
 
 AVOCAB = ["banner.png", "Banner.PNG", "xbn.png", "bn.txt", "BANNER.JPG", "bnx.png", "jk_a.png", "JK_b.gif", "ajk_.png", "a-cd.png", "a-CD.PNG", "a-cdx.png",
           "a disc.png", "my title.png", "song.ogg", "SONG.MP3", "song.ogx", "bg.jpg", "song-bg.PNG", "background.bmp", "x cdtitle y.gif", "CDTitle.png",
+          "Artist - Song ver.2 bn.png", "Vol.3-cd.png", "Dr. Who jacket.png", "songbn.old.png", "songbg.orig.jpg", "a.b.c.ogg", "jk_.x.png", "cdtitle.v2.gif",
           "jacket.png", "AlbumArt.jpeg", "albumart", "readme.txt", "song.sm", ".hidden", "noext", "music.wav.bak", "tune.oga"]
 
 
